@@ -612,6 +612,11 @@ class Ledger:
                 return nonneg(x0_)
             if factor_ok(pv.op_tree(t["args"][1])):
                 return "A9 core Duration times a factor that is structurally finite and >= 0 (constants, U(0,1) samples, unsigned integers); magnitude: A-MAG"
+        if cls == "f64_clamp" and len(t["args"]) == 3:
+            lo_, hi_ = df.canon(pv.op_tree(t["args"][1]), b), df.canon(pv.op_tree(t["args"][2]), b)
+            if lo_ == "neg(%s)" % hi_ and re.search(r"(^|\.)config\.\w+$", hi_):
+                return "A11 f64::clamp(x, -B, B) with one configuration value B: panics only for a negative or NaN B " \
+                       "(assumption A-CFG: configured bounds are non-negative numbers)"
         if cls == "float_to_time":
             x0 = df.strip(pv.op_tree(t["args"][0]))
             if x0[0] == "call" and x0[2] == "powi" and len(x0[3]) == 2 and df.strip(x0[3][0]) == ("const", 2.0):
